@@ -7,10 +7,12 @@ export GOFLAGS=-mod=mod GOPROXY=off GOSUMDB=off GOTOOLCHAIN=local
 FILTER="${1:-}"; TESTS=0; [ "${2:-}" = "--tests" ] && TESTS=1
 if [ -n "$(git -C /repo status --porcelain --untracked-files=no)" ]; then echo "selftest: /repo has uncommitted changes; refusing"; exit 2; fi
 pass=0; fail=0; failed=()
-for d in selftest/mutants/*.diff; do
-  n=$(basename "$d" .diff)
+for d in selftest/mutants/*.diff seeded/*/patch.diff; do
+  case "$d" in
+    seeded/*) n=$(basename "$(dirname "$d")"); prop=$(python3 -c "import json,sys;print(json.load(open(sys.argv[1]))['property'])" "$(dirname "$d")/meta.json");;
+    *) n=$(basename "$d" .diff); prop=$(cat "selftest/mutants/$n.prop");;
+  esac
   case "$n" in *"$FILTER"*) ;; *) continue;; esac
-  prop=$(cat "selftest/mutants/$n.prop")
   if ! git -C /repo apply "$PWD/$d" 2>/dev/null; then echo "SKIP $n (patch does not apply)"; fail=$((fail+1)); failed+=("$n(apply)"); continue; fi
   if [ $TESTS = 1 ]; then
     if ! tools/baseline.sh /repo >/tmp/selftest_base.txt 2>&1; then echo "NOTE $n: baseline tests catch this mutant: $(head -1 /tmp/selftest_base.txt)"; fi
